@@ -1,5 +1,6 @@
 import ArcSwapModel.M.Machine
 import ArcSwapModel.Tie.HybridLoad
+import ArcSwapModel.Tie.RwLoad
 import ArcSwapModel.Tie.HybridAttempt
 import ArcSwapModel.Tie.HybridFallback
 import ArcSwapModel.Tie.HybridIntoInner
